@@ -49,7 +49,7 @@ nullify number only open opened operator optional out pad parameter pass pause p
 private procedure program protected public pure read readwrite real rec recl recursive result return rewind round save select
 sequence sequential sign size source stat status stop stream submodule subroutine sync target then to type unformatted unit use value volatile
 wait where while write c
-sin cos tan abs merge real cmplx null size trim adjustl repeat mod int nint max min reshape
+sin cos tan abs merge real cmplx null size trim adjustl repeat mod int nint max min reshape index
 """.split())
 # note: `c` is the language-binding-spec keyword of BIND(C); `real/size/...` double as intrinsics.
 
